@@ -78,7 +78,7 @@ theorem dictFirst_new (d : List (CKey × Nat)) (seen : List CKey) (h : DictFirst
 /-- the object after a successful `rotate_once` that produced the lists `nx` -/
 def rotated (o : LObj) (nx : List String × List Char) : LObj :=
   { o with seq := nx.1, sst := nx.2, pairTable := none, loopIndex := none, lolSequence := none,
-           exteriorDomains := none }
+           strandLengths := none, exteriorDomains := none, enclosedDomains := none }
 
 theorem rotated_rotated (o : LObj) (a b : List String × List Char) : rotated (rotated o a) b = rotated o b := rfl
 
@@ -96,27 +96,44 @@ theorem obj_rotateOnce (o : LObj) (nx : List String × List Char) (h : Dsd.rotat
     rfl
   | error e => cases e <;> simp [toCurrent] at this
 
-/-- what the loop keeps invariant: `_strand_lengths` is filled (and truthy), the flag, well-formedness -/
+/-- what the loop keeps invariant: `_strand_lengths` and `_lol_sequence`, when filled, have one entry per strand
+    (`rotate_once` empties both, `self.size` fills them again from the turned sequence - a turn does not change the
+    number of strands), the flag, well-formedness -/
 structure Inv (n : Nat) (mc : Bool) (o : LObj) : Prop where
-  lens : ∃ l, o.strandLengths = some l ∧ l.length = n
+  lens : ∀ l, o.strandLengths = some l → l.length = n
+  lol : ∀ ll, o.lolSequence = some ll → ll.length = n
+  nstr : nStr o.seq = n
   pos : 0 < n
   mc : o.memorycheck = mc
   descr : Descr' o.seq o.sst
 
-theorem size_inv (n : Nat) (mc : Bool) (o : LObj) (h : Inv n mc o) : o.size = (o, n) := by
-  obtain ⟨l, hl, hn⟩ := h.lens
-  have hne : l ≠ [] := fun e => by rw [e] at hn; have := h.pos; simp at hn; omega
+theorem truthy_true {α} (x : Option (List α)) (h : truthy x = true) : ∃ a l, x = some (a :: l) := by
+  cases x with
+  | none => cases h
+  | some l =>
+    cases l with
+    | nil => cases h
+    | cons a l => exact ⟨a, l, rfl⟩
+
+/-- `self.size` in the loop: the number of strands, whether `_strand_lengths` is still there or has to be filled again -/
+theorem size_inv (n : Nat) (mc : Bool) (o : LObj) (h : Inv n mc o) : o.size.2 = n := by
   unfold LObj.size LObj.fillStrandLengths
-  have ht : truthy o.strandLengths = true := by
-    rw [hl]; cases l with
-    | nil => exact absurd rfl hne
-    | cons _ _ => rfl
-  rw [if_pos ht, hl]
-  simp only [Option.getD_some, hn]
+  by_cases ht : truthy o.strandLengths = true
+  · obtain ⟨a, l, hl⟩ := truthy_true _ ht
+    rw [if_pos ht, hl]
+    exact h.lens _ hl
+  · rw [if_neg ht]
+    by_cases ht2 : truthy o.lolSequence = true
+    · obtain ⟨a, l, hl⟩ := truthy_true _ ht2
+      simp only [ht2, if_true, List.length_map]
+      rw [hl]
+      exact h.lol _ hl
+    · simp only [ht2, Bool.false_eq_true, if_false, Option.getD_some, List.length_map]
+      exact h.nstr
 
 theorem inv_rotated (n : Nat) (mc : Bool) (o : LObj) (h : Inv n mc o) (nx : List String × List Char)
-    (hd : Descr' nx.1 nx.2) : Inv n mc (rotated o nx) :=
-  ⟨h.lens, h.pos, h.mc, hd⟩
+    (hd : Descr' nx.1 nx.2) (hn : nStr nx.1 = nStr o.seq) : Inv n mc (rotated o nx) :=
+  ⟨fun _ hl => (by cases hl), fun _ hl => (by cases hl), (by rw [← h.nstr]; exact hn), h.pos, h.mc, hd⟩
 
 /-- the memory entry consulted by `do_memorycheck` when the flag is set -/
 def chk (R : LReg) (mc : Bool) (z : CKey) : Option LObj := if mc then R.MEMORY.lookup z else none
@@ -128,26 +145,31 @@ def dupOf (n e : Nat) (other : LObj) : LErr :=
   | some ro => .duplication other.id ((((e : Int) - (n : Int)).natAbs : Int) - (ro : Int))
 
 theorem doMemorycheck_inv (R : LReg) (n : Nat) (mc : Bool) (o : LObj) (h : Inv n mc o) (z : CKey) (e : Nat) :
-    LObj.doMemorycheck R o z (some e) = (o, (R.MEMORY.lookup z).map (dupOf n e)) := by
+    LObj.doMemorycheck R o z (some e) =
+      match R.MEMORY.lookup z with
+      | none => (o, none)
+      | some other => (o.size.1, some (dupOf n e other)) := by
   unfold LObj.doMemorycheck
   cases hm : R.MEMORY.lookup z with
   | none => rfl
   | some other =>
-    simp only [size_inv n mc o h, Option.map_some, dupOf]
+    have hs : o.size = (o.size.1, n) := by rw [← size_inv n mc o h]
+    simp only [dupOf]
+    rw [hs]
     cases other.rotations <;> rfl
 
 /-- one iteration of the loop -/
 theorem canonLoop_succ (R : LReg) (n : Nat) (mc : Bool) (k e : Nat) (o : LObj) (vars : List (CKey × Nat))
     (h : Inv n mc o) (nx : List String × List Char) (hrot : Dsd.rotateOnce o.seq o.sst = .ok nx)
-    (hd : Descr' nx.1 nx.2) :
+    (hd : Descr' nx.1 nx.2) (hn : nStr nx.1 = nStr o.seq) :
     LObj.canonLoop R (k + 1) e o vars =
       if (vars.lookup nx).isSome then LObj.canonLoop R k (e + 1) (rotated o nx) vars
       else match chk R mc nx with
-        | some other => (rotated o nx, .error (dupOf n e other))
+        | some other => ((rotated o nx).size.1, .error (dupOf n e other))
         | none => LObj.canonLoop R k (e + 1) (rotated o nx) (vars ++ [(nx, e)]) := by
   conv => lhs; unfold LObj.canonLoop
   rw [obj_rotateOnce o nx hrot h.descr.al.1]
-  have hi := inv_rotated n mc o h nx hd
+  have hi := inv_rotated n mc o h nx hd hn
   simp only
   have hc : ((rotated o nx).seq, (rotated o nx).sst) = nx := rfl
   rw [hc]
@@ -187,9 +209,9 @@ theorem canonLoop_spec (R : LReg) (n : Nat) (mc : Bool) :
     · intro j z other hj; simp at hj
   | succ k ih =>
     intro o seen vars hinv hdict hseen
-    obtain ⟨nx, hrot, hdn, _⟩ := descr_rotateOnce o.seq o.sst hinv.descr
-    have hstep := canonLoop_succ R n mc k (seen.length + 1) o vars hinv nx hrot hdn
-    have hi1 := inv_rotated n mc o hinv nx hdn
+    obtain ⟨nx, hrot, hdn, hnn⟩ := descr_rotateOnce o.seq o.sst hinv.descr
+    have hstep := canonLoop_succ R n mc k (seen.length + 1) o vars hinv nx hrot hdn hnn
+    have hi1 := inv_rotated n mc o hinv nx hdn hnn
     have hlen1 : (seen ++ [nx]).length + 1 = seen.length + 1 + 1 := by simp
     by_cases hmem : nx ∈ seen
     · -- an old representation: no check
